@@ -81,4 +81,16 @@ META = {
         "note": "totals are computed with the converter's own unit definitions (their correctness is C09's business)",
         "technique": "runtime monitoring: conservation oracle over recorded inputs and outputs",
     },
+    "C08": {
+        "text": "Reference-model monitor on physical amounts: each generated valid recipe is scaled by several factors and serving targets; every component is judged against its pre-scale kind, everything else must be image-identical.",
+        "design_ref": "DESIGN.md §6 C08",
+        "note": "physical amounts use the converter's own unit definitions (C09 checks those against the standard table)",
+        "technique": "runtime monitoring: reference-model oracle on scaled amounts + differential image of untouched parts",
+    },
+    "C15": {
+        "text": "Round-trip monitor over generated, mutated and front-matter-heavy recipes, before and after scaling and conversion: serialize, deserialize, compare, re-serialize byte-identically.",
+        "design_ref": "DESIGN.md §6 C15",
+        "note": "ScaledRecipe's Scaled payload has no PartialEq: compared through byte identity of the second serialization",
+        "technique": "runtime monitoring: round-trip oracle",
+    },
 }
